@@ -303,6 +303,7 @@ def _fs_task(task):
     with worlds.world("posc") as db:
         for qt in qts:
             units = db.GetUnits(qt)
+            foreign_pairs = {(u, v) for u in units[:4] for v in units[:4]}
             for u in units:
                 c = db.GetDefaultCategory(u)
                 if not c:
@@ -347,6 +348,17 @@ def _fs_task(task):
                         part.add("outcomes", ("agrees", u == v))
                         if u != v and num:
                             part.add("nontrivial", (u, v))
+                        # the same two objects asked again while ANOTHER database is the current singleton: both
+                        # belong to the database they were created in, and behave alike there too
+                        if (u, v) in foreign_pairs:
+                            fs_obj, sc_obj = FractionScalar(c, fv, u), Scalar(x, u, c)
+                            with worlds.foreign_singleton():
+                                part.count("evaluations")
+                                rs = _run(lambda: sc_obj.GetValue(v))
+                                rf = _run(lambda: float(fs_obj.GetValue(v)))
+                            if rs[0] == "ok" and not (rf[0] == "ok" and abs(rf[1] - rs[1]) <= 1e-12 * scale):
+                                part.violation(sig + ":under a foreign singleton the Scalar converts, the FractionScalar does not", {"scalar": repr(rs), "fraction_scalar": repr(rf)},
+                                               sn.replace("    a = float(FractionScalar", "    import mc.worlds as w\n    with w.foreign_singleton():\n        print(float(FractionScalar(%r, fv, %r).GetValue(%r)))\n    a = float(FractionScalar" % (c, u, v)))
                         # db.Convert of the FractionValue itself
                         r2 = _run(lambda: float(db.Convert(qt, u, v, fv)))
                         if r2[0] != "ok" or abs(r2[1] - want) > 1e-12 * scale:
